@@ -75,7 +75,7 @@ func c13Run(c *Ctx) {
 				in.dims[d] = mon.Dim{Value: int64(concrete[d])}
 			}
 		}
-		if r.Chance(0.25) && (anyRequired || i < nIn-1) {
+		if r.Chance(0.25) && (anyRequired || i < nIn-1 || c.Idx%4 == 1) { // (one case in four: possibly no required input at all)
 			in.shadowed = true
 			in.initVal = r.Tensor(ref.F32, concrete, gen.FillSmall, 5)
 			g.Inits = append(g.Inits, mon.GInit{Name: in.name, T: in.initVal, Raw: r.Bool()})
@@ -384,6 +384,10 @@ func c13Run(c *Ctx) {
 				}
 			}
 			before[k] = mon.Fp(supplied[k])
+		}
+		if len(supplied) == 0 && c.Idx%8 < 4 { // no input to supply: the caller may as well pass no map at all
+			supplied = nil
+			c.Count("runs-with-a-nil-input-map", 1)
 		}
 		res, err = m.Run(supplied)
 		return nil, err
